@@ -190,6 +190,8 @@ func patterns() []string {
 		"a*(b)", "(?:a|b)*(c)", "a*(b)c", "a*(b)?", "[ab]*(c)", "x*(y)(z)",
 		// assertions in the middle
 		"(a)\\b(b)", "(a)\\B(b)", "(a)\\b( )", "(\\w+)\\B", "(a)$(b)", "(a)^(b)", "(?m)(a)$\\n(b)", "(\\d+)\\b(px|em)",
+		// end looks / start looks through the one-pass `atEnd` / `endMatches` machinery
+		"(a|\\z)", "(\\z|a)", "(a*)\\z", "(?:a\\z)*", "(?:(a)|\\z)+", "(a)?$", "(a|b$)", "\\A(a)$", "(?m)^(a)", "^(?:(a)|^b)", "(a)(?:$|b)", "(a+?)$", "(a*?)$", "(a|ab)$", "(a|ab)(c|$)", "(?:(a)|(b)$)", "(a)\\z|(a)b", "(a$)?", "(^)?(a)", "(a)(\\z)", "(x*)(y*)$", "(a+?)(b|$)",
 		// no groups (CaptureCount = 1)
 		"a", "a*", "a|b", "ab", "",
 	}
@@ -327,8 +329,8 @@ func main() {
 				}()
 				gs := ints(got)
 				emit(fmt.Sprintf("caps pike %d %d %s %s", at, 2*ng, hh, d), gs, fmt.Sprintf("pike\t%q\t%q\t%d", p, h, at))
-				if at < len(h) {
-					// theorem (c) instance: the reference on the dumped NFA vs the real Pike VM
+				{
+					// theorem (c) instance (every at <= len): the reference on the dumped NFA vs the real Pike VM
 					emit(fmt.Sprintf("caps ref %d %d %s %s", at, 2*ng, hh, d), gs, fmt.Sprintf("ref-gopike\t%q\t%q\t%d", p, h, at))
 				}
 				if at == 0 || !lb {
@@ -356,6 +358,7 @@ func main() {
 	}
 	// ---- one-pass DFA ----
 	nOPBuilt, nOPRejected, nOPCases, nOPStdDiff, nOPNilButMatch, nOPWrong, nE2E, nE2EDiff := 0, 0, 0, 0, 0, 0, 0, 0
+	nOPLCases, nOPLDiff := 0, 0
 	opWrongPats := map[string]bool{}
 	e2ePats := map[string]bool{}
 	for _, p := range patterns() {
@@ -402,6 +405,26 @@ func main() {
 				}
 				emit(fmt.Sprintf("caps onepass 0 %d %s %s", 2*ng, hh, d), gs, fmt.Sprintf("onepass\t%q\t%q\t0", p, h))
 				emit(fmt.Sprintf("caps arun 0 %d %s %s", 2*ng, hh, d), gs, fmt.Sprintf("arun\t%q\t%q\t0", p, h))
+				// theorem instance: anchored reference on the dumped NFA vs the real one-pass DFA
+				emit(fmt.Sprintf("caps refa 0 %d %s %s", 2*ng, hh, d), gs, fmt.Sprintf("refa-goonepass\t%q\t%q\t0", p, h))
+				cacheL := onepass.NewCache(dfa.NumCaptures())
+				gotL := dfa.SearchLongest(h, cacheL)
+				gl := "nil"
+				if gotL != nil {
+					gl = ints(append([]int(nil), gotL...))
+				}
+				emit(fmt.Sprintf("caps onepass-longest 0 %d %s %s", 2*ng, hh, d), gl, fmt.Sprintf("onepass-longest\t%q\t%q\t0", p, h))
+				emit(fmt.Sprintf("caps arun-longest 0 %d %s %s", 2*ng, hh, d), gl, fmt.Sprintf("arun-longest\t%q\t%q\t0", p, h))
+				emit(fmt.Sprintf("caps onepass-ismatch 0 %d %s %s", 2*ng, hh, d), fmt.Sprint(dfa.IsMatch(h)), fmt.Sprintf("onepass-ismatch\t%q\t%q\t0", p, h))
+				// leftmost-longest oracle
+				reL := regexp.MustCompile(`^(?:` + p + `)`)
+				reL.Longest()
+				stdL := ints(reL.FindSubmatchIndex(h))
+				nOPLCases++
+				if gl != stdL {
+					nOPLDiff++
+					fmt.Fprintf(fw, "ONEPASS-LONGEST!=STD\t%q\t%q\tonepass=%s\tstd(anchored,longest)=%s\n", p, h, gl, stdL)
+				}
 				if gs != stdA {
 					nOPStdDiff++
 					if gs == "nil" {
@@ -427,6 +450,7 @@ func main() {
 	}
 	fmt.Fprintf(os.Stderr, "one-pass: built %d, rejected %d; searches %d, differ from anchored stdlib %d (nil where stdlib matches: %d, wrong non-nil answer: %d, patterns with wrong answers: %d)\n",
 		nOPBuilt, nOPRejected, nOPCases, nOPStdDiff, nOPNilButMatch, nOPWrong, len(opWrongPats))
+	fmt.Fprintf(os.Stderr, "one-pass SearchLongest vs anchored stdlib Longest(): compared %d, differ %d\n", nOPLCases, nOPLDiff)
 	fmt.Fprintf(os.Stderr, "engine coregex.FindSubmatchIndex vs regexp (patterns with groups): compared %d, differ %d, patterns %d\n", nE2E, nE2EDiff, len(e2ePats))
 	fmt.Fprintf(os.Stderr, "patterns: %d, (pattern,haystack,at) cases: %d, request lines: %d\n", nPat, nCases, lines)
 	fmt.Fprintf(os.Stderr, "Go PikeVM captures vs regexp.FindSubmatchIndex: compared %d, differ %d (at==len: %d, at<len: %d), patterns affected %d (at<len: %d)\n",
